@@ -16,6 +16,9 @@ var harnesses = map[string]func(){
 	"C18Generate":     C18Generate,
 	"C15Run":          C15Run,
 	"T0Pipeline":      T0Pipeline,
+	"C14BadNotation":  C14BadNotation,
+	"C08CreateFunction": C08CreateFunction,
+	"C14OutIsInput":   C14OutIsInput,
 	"C17Selection":    C17Selection,
 	"C17NoInterface":  C17NoInterface,
 	"C09Scoping":      C09Scoping,
